@@ -703,8 +703,13 @@ class Server(BaseComponent):
             try:
                 self.fire(connect(sock, *sock.getpeername()))
             except OSError as exc:
-                # errno 107 (ENOTCONN): the client already disconnected
-                self._on_handshake_error(sock, exc)
+                # errno 107 (ENOTCONN): the client already disconnected.
+                # No connect was announced, so no disconnect may follow.
+                self.fire(error(sock, exc))
+                self._poller.discard(sock)
+                self._clients.remove(sock)
+                with contextlib.suppress(OSError):
+                    sock.close()
 
     def _on_handshake_error(self, sock, err):
         self.fire(error(sock, err))
